@@ -100,6 +100,10 @@ func runSession(t testing.TB, tr *tracer, o srvOpts, sc sessScenario, salt int) 
 		s.v.addFile("/f2", posData(300, 2))
 		s.v.addDir("/d")
 		s.v.addFile("/d/x", []byte("x"))
+		// in two sessions out of three some handler objects report an error from Close: the handle dies all the same
+		if salt%3 != 0 {
+			s.v.closeErrEvery = 2 + salt%2
+		}
 	}
 	s.start()
 	p := func(name string) string {
@@ -193,7 +197,13 @@ func runSession(t testing.TB, tr *tracer, o srvOpts, sc sessScenario, salt int) 
 			var f wframe
 			if op.Op == "close" {
 				f, _ = s.call(fClose(id, hi.str))
-				tr.emit("Op", kv{"op": "close", "h": hid(hi.str), "ok": f.Typ == tStatus && f.Code == 0, "code": int(f.Code)})
+				objfail := false
+				if s.v != nil {
+					if ob := s.v.objByTag(hid(hi.str)); ob != nil {
+						objfail = ob.closeFails()
+					}
+				}
+				tr.emit("Op", kv{"op": "close", "h": hid(hi.str), "ok": f.Typ == tStatus && f.Code == 0, "code": int(f.Code), "objfail": objfail})
 				continue
 			}
 			variant := (salt + i) % 3
